@@ -15,7 +15,7 @@ func notYet(id string) {
 }
 
 func init() {
-	for _, id := range []string{"C01", "C02", "C03", "C04", "C05", "C07", "C08", "C10", "C11", "C15", "C20"} {
+	for _, id := range []string{"C02", "C03", "C04", "C05", "C07", "C08", "C10", "C11", "C15", "C20"} {
 		notYet(id)
 	}
 	claim("C06", "other",
@@ -56,4 +56,6 @@ func init() {
 		"Static necessary conditions of three clauses: (ShiftLen) whenever StreamLexer installs a different backing array every field living in the buffer's coordinate system is re-based by the same offset; (Err timing) Err() hides io.EOF exactly while pos < len(buf) and never hides another error; (unfreed tokens intact) bufferPool reuses the current buffer only when tail==0, pos>=len(oldBuf), size<=cap, reuses a pooled block only when inactive, and deactivates a block only once pos passed its length. Chunking independence, the memory bound and token lifetime as such are schedule/history-valued and not decided.",
 		"Coordinate fields are inferred (used as index/bound of z.buf or assigned from such).", "field-coordinate inference + affine offset comparison on SSA; dominator path facts", "DESIGN.md 4/C13",
 		"Decided: R-REBASE, R-STREAMERR, R-POOLREUSE (structural necessary conditions). Not decided: equivalence with a cursor over the whole input for all chunkings, memory bound, token lifetime vs Free (history/schedule-valued).")
+	claim("C01", "other",
+		"(in progress) recursion and cursor-primitive rules", "", "call-graph SCC analysis; affine guards", "DESIGN.md 4/C01", "in progress")
 }
